@@ -197,6 +197,10 @@ func randomVars(t *tape.Tape, names []string) map[string]interface{} {
 			return "s" + strconv.Itoa(t.Draw(5))
 		case 5:
 			if d < 2 {
+				if t.Bool(1, 3) {
+					// lists whose members are lists / objects
+					return []interface{}{[]interface{}{val(2), val(2)}, map[string]interface{}{"a": val(2), "b": []interface{}{map[string]interface{}{}}}}
+				}
 				return []interface{}{val(d + 1), val(d + 1)}
 			}
 		case 6:
@@ -291,6 +295,10 @@ var c03Adversarial = []string{
 	"{ join(words: [[\"a\"], 1, {x: 2}]) j2: join(words: \"a\") j3: join }",
 	"query($x: [String]) { join(words: $x) }",
 	"query($x: [String!]!) { join(words: $x) }",
+	"query($n: Int = $n) { echo(s: \"a\", n: $n) }",
+	"query($a: String = $b, $b: String = $a) { echo(s: $a, n: 1) }",
+	"query($a: Int = $b, $b: Int = $c, $c: Int = 3) { echo(s: \"x\", n: $a) }",
+	"query($l: [[Int]] = [[1, 2], [3]]) { span(r: {parts: [{parts: [{}]}]}) nums }",
 	"{ ghost g2: ghost }",
 	"{ keepers { ghost } k2: keepers { ghost g3: ghost } }",
 	"{ animals { name legs } }",
@@ -334,6 +342,13 @@ var c03AdversarialSDL = []string{
 	// strings with non-printable runes outside the basic plane (tags, private use, the last code point)
 	"\"about \U000E0067\U000E007F \U000F0000 \U0010FFFF\"\ntype T { a(x: String = \"d \U000E0001 \u0085 \uFFFE\"): String @deprecated(reason: \"r \U000E007F\") }",
 	"\"\"\"\nblock \U000E0067 \U0010FFFF\n\"\"\"\nenum E { \"v \U000F0000\" A }",
+	// block descriptions whose lines are indented unevenly (white-space-only lines shorter than the common indentation)
+	"\"\"\"\n    first\n  \n    second\n\t\n    third\n\"\"\"\ntype T { a: Int }",
+	"type T {\n  \"\"\"\n      deep\n \n\n   \n      text\n  \"\"\"\n  a: Int\n}",
+	"\"\"\"\n\t\ttabs\n\t\n \t \n\t\tmore\"\"\" enum E { A }",
+	"\"\"\"   \n   \n\"\"\" scalar S",
+	// list values whose members are lists or input objects, as directive arguments and defaults
+	"directive @d(m: [[Int]] = [[1, 2], [3]], o: [In] = [{a: 1}, {}]) on OBJECT\ninput In { a: Int = 2 }\ntype T @d(m: [[4], []], o: [{a: 3}]) { f: Int }",
 	// directive loops that are entered from outside the loop, longer loops, a directive used twice
 	"directive @outer(x: Int @inner) on FIELD_DEFINITION\ndirective @inner(y: Int @inner) on ARGUMENT_DEFINITION",
 	"directive @a(x: Int @b) on ARGUMENT_DEFINITION\ndirective @b(y: Int @c) on ARGUMENT_DEFINITION\ndirective @c(z: Int @b) on ARGUMENT_DEFINITION",
@@ -358,6 +373,8 @@ var c03Pairs = [][2]string{
 	{"type Query { u: U i: I }\nunion U = A | B\ninterface I { x: Int }\ntype A implements I { x: Int }\ntype B implements I { x: Int y: U }", "{ u { ... on A { x } ... on B { y { ... on B { y { __typename } } } } } i { x ... on B { y { __typename } } } }"},
 	{"type Query { f(t: Time, i: Int64, fl: Float64): Time }", "{ f(t: \"not a time\") a: f(i: 99999999999999999999) b: f(fl: 1e999) c: f(t: 5) }"},
 	{"type Query { l: [[[Int!]!]!]! }", "{ l }"},
+	{"type Query { f(m: [[Int]], o: [In], v: [[In!]]): Int }\ninput In { a: Int = 2 b: [In] }", "query($v: [[Int]], $x: [In], $f: [[In!]]) { f(m: $v, o: $x, v: $f) a: f(m: [[1], [2, 3]], o: [{a: 1}, {b: [{}]}]) }"},
+	{"type Query { f(m: [[Int]], o: [In]): Int }\ninput In { a: Int = 2 b: [In] }", "query($v: [[Int]] = [[1], []], $x: [In] = [{b: [{a: 5}]}]) { f(m: $v, o: $x) }"},
 	{"schema { query: Q mutation: M subscription: S }\ntype Q { a: Int }\ntype M { b(x: Int!): Int }\ntype S { c: Int }", "mutation { b } "},
 	{"schema { query: Q mutation: M subscription: S }\ntype Q { a: Int }\ntype M { b(x: Int!): Int }\ntype S { c: Int }", "subscription { c } "},
 }
